@@ -27,14 +27,6 @@ F = [
       mechanism='same mechanism for a one-of inside a recurrent subgraph: on re-iteration every candidate is executed eagerly as an ordinary '
                 'node of the subgraph (laziness and containment are lost)',
       witness={'C10': 'witnesses/KF-RECINNER-ONEOF.json'}),
- dict(id='KF-CANDSHARED', family='candidate_shared', properties=RUNP + ['C19'],
-      kinds=['deadlock', 'cancel_hangs', 'bad_arg_exception_instance', 'never_node_ran', 'value_instead_of_error', 'wrong_error',
-             'unexpected_args', 'missing_execution', 'wrong_value', 'schedule_dependent_outcome', 'exception_saved',
-             'none_placeholder_arg', 'error_instead_of_value', 'unexpected_default_call', 'missing_default_call'],
-      mechanism='a one-of candidate that is also consumed directly by another node: candidates are filtered out of every sub-pipeline except their '
-                'own one-of (manager.py _filter_node), so the direct consumer never becomes ready and the run hangs; when the candidate is reached '
-                'through its one-of first, its contained failure is delivered to the direct consumer',
-      witness={'C02': 'witnesses/KF-CANDSHARED.json'}),
  dict(id='KF-RECOUT', family='rec_outside_consumer', properties=['C12', 'C01', 'C03', 'C11'],
       kinds=['wrong_value', 'unexpected_args', 'missing_execution', 'schedule_dependent_outcome', 'missing_default_call',
              'unexpected_default_call', 'over_execution'],
@@ -55,6 +47,7 @@ F = [
 for f in F:
     f['status'] = 'open'
 FIXED = [
+ 'fixed: property=C02 8af1c59 a one-of candidate that is also consumed directly by another node: the direct consumer never became ready and the run hung (witnesses/D34.json); also C10 C03 C05',
  'fixed: property=C15 c19c0ea two parameters of one node bound to the same upstream node (or the same named switch) collapsed into one graph edge and only the last parameter was supplied (witnesses/D33.json, witnesses/D33-build.json); also C03',
  'fixed: property=C19 c62de43 a node result was published before its artifact save finished: with a slow store the save was cancelled at run end and the artifact lost (witnesses/D32.json)',
  'fixed: property=C17 b11c0fc a build_node() derivative tagged for the process pool killed the pool worker (method pickled under the wrong name) (witnesses/D31.json)',
